@@ -836,3 +836,62 @@ func enclosingNamed(fn *ssa.Function) *ssa.Function {
 	}
 	return fn
 }
+
+// reachableAvoidingFrom: is target reachable from start without crossing a cut edge?
+func reachableAvoidingFrom(start, target *ssa.BasicBlock, cut func(e edge) bool) bool {
+	seen := map[*ssa.BasicBlock]bool{start: true}
+	work := []*ssa.BasicBlock{start}
+	for len(work) > 0 {
+		b := work[len(work)-1]
+		work = work[:len(work)-1]
+		if b == target {
+			return true
+		}
+		for i, s := range b.Succs {
+			if cut(edge{b, i}) {
+				continue
+			}
+			if !seen[s] {
+				seen[s] = true
+				work = append(work, s)
+			}
+		}
+	}
+	return false
+}
+
+// mustCrossFrom: every path from block start to sink crosses an establishing edge (vacuously true if unreachable).
+func mustCrossFrom(start *ssa.BasicBlock, sink ssa.Instruction, est func(e edge) bool) bool {
+	return !reachableAvoidingFrom(start, sink.Block(), est)
+}
+
+// ifSucc returns the successor block of the If that tests v (directly) for the given truth value; nil if none.
+func ifSucc(v ssa.Value, truth bool) *ssa.BasicBlock {
+	for _, r := range *v.Referrers() {
+		if i, ok := r.(*ssa.If); ok && i.Cond == v {
+			if truth {
+				return i.Block().Succs[0]
+			}
+			return i.Block().Succs[1]
+		}
+	}
+	return nil
+}
+
+// fieldIs: fa addresses field `field` of a struct type whose key (relative to the module) is owner.
+func fieldAddrIs(v ssa.Value, owner, field string) bool {
+	fa, ok := v.(*ssa.FieldAddr)
+	if !ok {
+		return false
+	}
+	return typeShort(fa.X.Type()) == owner && fieldName(fa.X.Type(), fa.Field) == field
+}
+
+// loadsField: v is a load (*) of owner.field.
+func loadsField(v ssa.Value, owner, field string) bool {
+	u, ok := v.(*ssa.UnOp)
+	if !ok || u.Op != token.MUL {
+		return false
+	}
+	return fieldAddrIs(u.X, owner, field)
+}
